@@ -456,11 +456,11 @@ ROUND3 = {
     'C35': " The oracle merges the test specifications itself (minimum distances, unions) instead of calling analyze_results, and building a report must leave the execution results of the suite's test cases unchanged.",
     'C06': ' The template module includes never-ending loops made of several cycles (while True around for / if / while / continue).',
     'C04': ' The value sampler of the native replay includes one-shot iterators (a membership test consumes them).',
-    'C02': ' Second part: the same comparison on the stdlib corpus (copies of 17 pure-Python standard-library modules, ~600 fixed calls; see C01).',
+    'C02': ' Second part: the same comparison on the stdlib corpus (copies of 24 pure-Python standard-library modules, ~850 fixed calls; see C01).',
     'C10': " Also proved: the fitness / coverage function objects the search uses (BranchDistanceTestSuiteFitnessFunction, BranchDistanceTestCaseFitnessFunction, LineTestSuiteFitnessFunction.compute_is_covered, TestSuite/TestCaseBranchCoverageFunction, TestSuiteLineCoverageFunction) return exactly the metric functions' values on one and the same merged trace of the chromosome's execution results (running the chromosome and merging enter as assumed functions RESULTS / MERGED), so fitness, covered verdict and coverage of one chromosome agree. Bounded addition (and witness for those obligations): the real suite-level objects on a real instrumented executor over every subset of size <= 3 (thorough: all subsets) of 7 test cases, one of which never terminates and one of which raises.",
     'C12': " Bounded addition: both cache layers (values in the ComputationCache, execution result on the chromosome) on real execution-based functions and a real executor whose execute() raises RuntimeError at a chosen execution (as its docstring allows): test case chromosomes and two-member suites are evaluated, changed, queried through each query method with or without a fault, queried again and compared with a chromosome built from scratch (268 histories).",
-    'C01': " Second part: the same comparison under {CHECKED} and {CHECKED, LINE} (checked coverage rewrites every load, store, attribute, subscript, slice, call, jump and return), every function in a process of its own because a wrong rewrite can crash the interpreter; a process that dies or cannot import the instrumented module is a violation. This part found three defects of the checked-coverage instrumentation on Python 3.12 (with statements, slices, inlined comprehensions), fixed in 64b7246, 7498902, 09850f7. H-prog additions: a while loop around try/except/finally, bytes operands that are not valid UTF-8. Third part: the stdlib corpus - copies of 17 pure-Python standard-library modules (bisect, heapq, textwrap, colorsys, fnmatch, shlex, posixpath, difflib, string, statistics, ipaddress, urllib.parse, graphlib, copy, pprint, fractions, calendar) with ~600 fixed calls, compared in the same way under {BRANCH}, {LINE}, {BRANCH, LINE} and (one process per module) {CHECKED}; a module that cannot be imported through the import hook is a violation. It found three more instrumentation defects (dynamic seeding next to a TryEnd, super() attribute access and a call at the start of a block under checked coverage), fixed in 57392e4, 33489f9, 88905f4. Fourth part: a seeded sample of 64 (thorough: all ~510) files of the standard library is instrumented (not run) with branch + line + seeding adapters and with the checked-coverage adapter; any exception is a violation.",
-    'C03': " The entry of a branch-less code object is compared as well (reported as executed exactly when sys.monitoring saw a line of it, import-time entries subtracted). Second part: the same comparison on the stdlib corpus (copies of 17 pure-Python standard-library modules, ~600 fixed calls; see C01).",
+    'C01': " Second part: the same comparison under {CHECKED} and {CHECKED, LINE} (checked coverage rewrites every load, store, attribute, subscript, slice, call, jump and return), every function in a process of its own because a wrong rewrite can crash the interpreter; a process that dies or cannot import the instrumented module is a violation. This part found three defects of the checked-coverage instrumentation on Python 3.12 (with statements, slices, inlined comprehensions), fixed in 64b7246, 7498902, 09850f7. H-prog additions: a while loop around try/except/finally, bytes operands that are not valid UTF-8. Third part: the stdlib corpus - copies of 24 pure-Python standard-library modules (bisect, heapq, textwrap, colorsys, fnmatch, shlex, posixpath, difflib, string, statistics, ipaddress, urllib.parse, graphlib, copy, pprint, fractions, calendar, json.decoder, json.encoder, tokenize, configparser, argparse, _pydatetime, re._parser) with ~850 fixed calls, compared in the same way under {BRANCH}, {LINE}, {BRANCH, LINE} and (one process per module) {CHECKED}; a module that cannot be imported through the import hook is a violation. It found three more instrumentation defects (dynamic seeding next to a TryEnd, super() attribute access and a call at the start of a block under checked coverage), fixed in 57392e4, 33489f9, 88905f4. Fourth part: a seeded sample of 64 (thorough: all ~510) files of the standard library is instrumented (not run) with branch + line + seeding adapters and with the checked-coverage adapter; any exception is a violation.",
+    'C03': " The entry of a branch-less code object is compared as well (reported as executed exactly when sys.monitoring saw a line of it, import-time entries subtracted). Second part: the same comparison on the stdlib corpus (copies of 24 pure-Python standard-library modules, ~850 fixed calls; see C01).",
     'C15': " (3) Bounded, sampled: 800 (4000) seeded random histories of 14 operations out of 15 - the mutation operator, the insertion mutation alone, relative and boundary crossover, the test factory's insert / graceful delete / change-call / change-type / field / value / call mutations, chop, unused-variable removal, forward-dependency removal, clone - over 4 test cases built by the real TestFactory for a generated cluster, maximum length 12; all clauses checked on every live test case after every operation. This part found that the insertion mutation could overshoot the maximum length (fixed 88da910).",
     'C07': ' Bounded addition: the same four goal-graph checks on 1806 generated functions (every chain of <= 3 nested if / if-else / while True / while / for / try-except around 7 innermost bodies; quick: depth <= 2 and a seeded sample of depth 3).',
     'C08': ' The AST line ranges enter _in_cover as ghost fields (first line, last line, list of definitions; scope_line_range and nodes_of_class are assumed to return them) and refutations are replayed on real ast nodes built from the counter-model. Bounded addition: a module of one-line definitions (also as last statement of their scope) with every scope as only_cover / no_cover entry. Third bounded module: try/except/else/finally (also inside a loop) with a marker on every single line.',
